@@ -28,11 +28,20 @@ fn structured(i: usize) -> [u8; 16] {
             }
         }
         134 => b = [0x01; 16],
-        _ => b = [0x80; 16],
+        135 => b = [0x80; 16],
+        // bytes that are all ASCII hex digits / printable text (a constructor that "also accepts hex" must not mistake them)
+        136 => b = *b"0123456789abcdef",
+        137 => b = *b"ABCDEFabcdef0123",
+        138 => b = [0x33; 16],
+        139 => b = [0x66; 16],
+        140 => b = *b"0x0123456789abcd",
+        141 => b = *b"sixteen byte key",
+        142 => b = *b"AAAAAAAAAAAAAAAA",
+        _ => b = *b"0000000000000000",
     }
     b
 }
-const NSTRUCT: usize = 136;
+const NSTRUCT: usize = 144;
 
 struct Lib {
     c: Option<Sm4Cipher>,
